@@ -77,23 +77,44 @@ func runOne(em *hlib.Emitter, orig input) {
 	in := orig
 	in.Series = normalise(orig.Series)
 	obs := map[string]interface{}{}
-	var terms []string
+	var flushTerms []string
 	multi := false
 	items := 0
-	for _, cfg := range in.Backends {
-		r := runBackend(&in, cfg)
-		c.Monitors = append(c.Monitors, r.monitors...)
-		if r.coq != "" {
-			terms = append(terms, r.coq)
+	if in.Stream == "sequence" && len(in.Backends) == 1 {
+		cfg := in.Backends[0]
+		for i, r := range runSequence(&in, cfg) {
+			for _, m := range r.monitors {
+				c.Monitors = append(c.Monitors, fmt.Sprintf("flush %d: %s", i, m))
+			}
+			obs[fmt.Sprintf("flush%d", i)] = map[string]interface{}{"cfg": cfg, "fail": in.Seq[i].Fail, "batches": r.nbatches, "items": r.nitems, "wire": r.obs}
+			if r.coq != "" {
+				fi := in
+				fi.Series = normalise(in.Seq[i].Series)
+				flushTerms = append(flushTerms, hlib.App("C17", fi.coqMask(), fi.coqMap(), fi.coqTable(), hlib.List([]string{r.coq})))
+			}
+			if r.nbatches >= 1 && i > 0 {
+				multi = true
+			}
+			items += r.nitems
 		}
-		obs[cfg.Backend] = map[string]interface{}{"cfg": cfg, "batches": r.nbatches, "items": r.nitems, "wire": r.obs}
-		if r.nbatches >= 2 {
-			multi = true
+	} else {
+		var terms []string
+		for _, cfg := range in.Backends {
+			r := runBackend(&in, cfg)
+			c.Monitors = append(c.Monitors, r.monitors...)
+			if r.coq != "" {
+				terms = append(terms, r.coq)
+			}
+			obs[cfg.Backend] = map[string]interface{}{"cfg": cfg, "batches": r.nbatches, "items": r.nitems, "wire": r.obs}
+			if r.nbatches >= 2 {
+				multi = true
+			}
+			items += r.nitems
 		}
-		items += r.nitems
+		flushTerms = []string{hlib.App("C17", in.coqMask(), in.coqMap(), in.coqTable(), hlib.List(terms))}
 	}
 	c.Obs = obs
-	c.Coq = hlib.App("C17", in.coqMask(), in.coqMap(), in.coqTable(), hlib.List(terms))
+	c.Coq = hlib.List(flushTerms)
 	size := "small"
 	if len(in.Series) >= 12 {
 		size = "large"
@@ -101,7 +122,11 @@ func runOne(em *hlib.Emitter, orig input) {
 		size = "empty"
 	}
 	c.Class = in.Stream + "/" + size
-	c.Nontrivial = (len(in.Series) >= 3 && multi) || (in.Stream == "event" && in.Event != nil && len(in.Event.Tags) > 0)
+	if in.Stream == "sequence" && len(in.Backends) == 1 {
+		c.Class = "sequence/" + in.Backends[0].Backend
+	}
+	c.Nontrivial = (len(in.Series) >= 3 && multi) || (in.Stream == "event" && in.Event != nil && len(in.Event.Tags) > 0) ||
+		(in.Stream == "sequence" && multi && items >= 3)
 	// known-finding streams: the signature is attached only when every violation seen is of the
 	// finding's own kind
 	switch in.Stream {
@@ -466,6 +491,8 @@ func genInput(r *hlib.Rand, i int) input {
 		stream = "f3"
 	case 9:
 		stream = "nonfinite"
+	case 8:
+		stream = "sequence"
 	case 1:
 		stream = "escape"
 	case 10, 11:
@@ -476,6 +503,9 @@ func genInput(r *hlib.Rand, i int) input {
 	}
 	if i%12 == 2 { // known findings F5-F7 (known_findings.jsonl)
 		stream = []string{"s5", "s6", "s7"}[(i/12)%3]
+	}
+	if stream == "sequence" {
+		return genSequence(r)
 	}
 	n := []int{0, 1, 2, 3, 5, 8, 12, 16, 25, 40}[r.Intn(10)]
 	if stream != "main" && n == 0 {
@@ -496,6 +526,39 @@ func genInput(r *hlib.Rand, i int) input {
 			if i == 0 || r.Chance(1, 3) {
 				in.Series[i].Tags = append(in.Series[i].Tags, hlib.Pick(r, []string{"value:7", "name:zz", "type:x", "timestamp:5", "interval:1"}))
 			}
+		}
+	}
+	return in
+}
+
+// genSequence: one backend instance, 2-4 flushes of different maps; for the HTTP backends and
+// the relay one or two of the flushes before the last are made to fail for good.
+func genSequence(r *hlib.Rand) input {
+	all := genBackends(r, "main")
+	var pick []BackendCfg
+	for _, b := range all {
+		switch b.Backend {
+		case "datadog", "influxdb", "otlp", "newrelic", "graphite":
+			pick = append(pick, b)
+		case "relay":
+			b.TCP = false
+			pick = append(pick, b)
+		}
+	}
+	cfg := hlib.Pick(r, pick)
+	if r.Chance(1, 3) {
+		cfg = pick[r.Intn(3)+1] // the backends that keep request buffers: influxdb, datadog, (otlp)
+	}
+	in := input{Stream: "sequence", Mask: genMask(r), Series: []Series{}, Backends: []BackendCfg{cfg}}
+	nf := r.Range(2, 4)
+	for i := 0; i < nf; i++ {
+		n := []int{1, 2, 3, 5, 8}[r.Intn(5)]
+		in.Seq = append(in.Seq, FlushIn{Series: genSeries(r.Fork(), "main", n)})
+	}
+	if cfg.Backend != "graphite" {
+		in.Seq[r.Intn(nf-1)].Fail = true
+		if nf > 2 && r.Chance(1, 3) {
+			in.Seq[r.Intn(nf-1)].Fail = true
 		}
 	}
 	return in
